@@ -1,4 +1,5 @@
 //! Shared helpers for the correspondence harness (one binary per property under src/bin).
+pub mod prog;
 use std::panic;
 
 /// splitmix64: the single PRNG every random choice derives from (seeded by VERIF_SEED).
